@@ -310,7 +310,7 @@ def c13_5(R):
                 guarded = False
                 for x in rem:
                     ds = [d for c, truth, d, *_ in controlling(b, x.bb)]
-                    if any("is_some=true" in d for d in ds) and any("ConnectingPerAddr::is_empty=true" in d for d in ds):
+                    if any("is_none=false" in d for d in ds) and any("ConnectingPerAddr::is_empty=true" in d for d in ds):
                         guarded = True
                 if ("ConnectDropped" in tk.variants or any("ConnectDropped" in f for f in tk.fields)) and guarded:
                     okd = True
@@ -331,7 +331,7 @@ def c13_5(R):
     # requester gone => key removed
     ins = [t for t in ack.calls() if call_on_field(ack, t, ("HashMap::insert",), "Dispatcher.streams")]
     rem = [t for t in ack.calls() if call_on_field(ack, t, ("HashMap::remove",), "Dispatcher.streams")]
-    if ins and rem and trace(ack, rem[0].args[1]).root[:2] == trace(ack, ins[0].args[1]).root[:2] and any("is_ok=false" in d or "is_err=true" in d for c, truth, d, *_ in controlling(ack, rem[0].bb)):
+    if ins and rem and trace(ack, rem[0].args[1]).root[:2] == trace(ack, ins[0].args[1]).root[:2] and any("is_err=true" in d for c, truth, d, *_ in controlling(ack, rem[0].bb)):
         R.ok("requester-gone=>key-removed", ack.name, "failed send to the connector removes the inserted key")
     else:
         R.fail([ack.name, "requester-gone-without(streams.remove(recv_key))"], "when the connecting caller is gone the freshly inserted stream key is not removed", where=ack.where(), instance="requester-gone=>key-removed")
